@@ -269,7 +269,7 @@ def gen_recipe(rng, n_files=None, defects=(), spicy=False, global_mode=None, git
     for d in defects:
         if d == "unused-text":
             cand = [i for i in GOOD_IDS + REF_IDS if i not in have and i not in used]
-            i = rng.choice(cand)
+            i = rng.choice(cand) if cand else f"LicenseRef-unused-{len(have)}"
             recipe["licenses"].append({"name": f"{i}.txt", "id": i})
             have.add(i)
         elif d == "bad-text":
